@@ -48,7 +48,22 @@ ODD_LABEL_SETS = [[1, 8], [8, 1], [3, 10], [5, 16], [7, 32], [2, 9, 17], [8, 0],
 #   internal             a data set that really is in the internal scaling: get_learning_data() / get_testing_data()
 # (plus 'reuse': a data set already scaled by an earlier call).  Either the call raises, or every sample is placed by the learning-time map of its
 # ORIGINAL coordinates, out-of-range samples are removed, classes are the arg-max there.
-PRESCALED = ['prescaled', 'prescaled-other', 'prescaled-corners', 'byhand-learning-map', 'byhand-factor', 'byhand-then-range', 'internal']
+#   prescaled-translated a translated copy of the learned range (same extent, other place) scaled by scale_range((0.005, 0.995)): the learning FACTOR
+#                        with another OFFSET - accepted by the code as found (finding C19-prescaled-offset-not-compared; generated only while
+#                        that finding is registered, see translated_enabled)
+PRESCALED = ['prescaled', 'prescaled-other', 'prescaled-corners', 'byhand-learning-map', 'byhand-factor', 'byhand-then-range', 'internal', 'prescaled-translated']
+OFFSET_FINDING = 'C19-prescaled-offset-not-compared'
+
+
+def translated_enabled():
+    import json, os
+    if os.environ.get('VERIF_C19_TRANSLATED'):
+        return True
+    try:
+        root = os.path.dirname(os.path.dirname(os.path.dirname(os.path.dirname(os.path.abspath(__file__)))))
+        return any(f.get('id') == OFFSET_FINDING for f in json.load(open(os.path.join(root, 'known_findings.json'))))
+    except Exception:
+        return False
 ARRAY_LAYOUTS = ['slice', 'F', 'f32', 'strided', 'colslice', 'i32labels']
 PERCENTAGES = [1.0, 0.5, 0.75, 0.8, 0.8, 0.9, 0.7, 0.625, 0.875, 0.25, 1, 0.0, 1.5]
 
@@ -187,12 +202,17 @@ def gen_case(rng, tier, idx, big=False):
             ops.append(['other', rng.choice(prev)])                    # the same numpy arrays handed to a SECOND classifier
             continue
         m = rng.randrange(1030, 1400) if big and not ops else (rng.randrange(60, 300) if big else rng.randrange(1, 9))
-        flavour = rng.choices(['inside', 'partly', 'outside', 'unlabelled', 'empty', 'edge'] + PRESCALED, [36, 22, 7, 7, 3, 10] + [6, 4, 4, 4, 4, 4, 3])[0]
+        flavour = rng.choices(['inside', 'partly', 'outside', 'unlabelled', 'empty', 'edge'] + PRESCALED,
+                              [36, 22, 7, 7, 3, 10] + [6, 4, 4, 4, 4, 4, 3, 5 if translated_enabled() else 0])[0]
         if big and flavour in ('empty', 'outside', 'internal'):
             flavour = 'partly'
         # pre-scaled inputs: points inside AND outside the learned range (a pre-scaled set must not smuggle out-of-range samples in)
-        P = gen_points(rng, {'unlabelled': 'inside', 'empty': 'inside', 'prescaled-corners': 'inside', 'internal': 'inside'}.get(flavour, 'partly' if flavour in PRESCALED else flavour),
+        P = gen_points(rng, {'unlabelled': 'inside', 'empty': 'inside', 'prescaled-corners': 'inside', 'internal': 'inside', 'prescaled-translated': 'inside'}.get(flavour, 'partly' if flavour in PRESCALED else flavour),
                        m, X, lo, hi, dim)
+        if flavour == 'prescaled-translated':
+            tr = [rng.choice([2.0, -1.5, 4.0]) for _ in range(dim)]
+            P = [[p[t] + tr[t] for t in range(dim)] for p in gen_points(rng, 'inside', m, X, lo, hi, dim)] + \
+                [[lo[t] + tr[t] for t in range(dim)], [hi[t] + tr[t] for t in range(dim)]]
         if flavour == 'prescaled-corners':
             P = P + [list(lo), list(hi)]       # own min/max = the learned range: scale_range((0.005, 0.995)) reproduces the learning-time map
         L = []
@@ -480,6 +500,11 @@ def impl_run(case):
         out['dens_test'] = []
         return out
     # label of the j-th classificator: (a) by the samples it was trained on (oracle), (b) j-th piece of learning_data.split_labels()
+    if cfg['one_vs_others']:
+        try:
+            out['ovo_classes'] = [[float(v) for v in np.asarray(de.classes, dtype=np.float64).reshape(-1)] for de in des]
+        except Exception:
+            out['ovo_classes'] = None
     owner = _owner_labels(list(des), out['init']['learn'], cfg['one_vs_others'])
     pieces = clf.get_learning_data().split_labels()
     lab_split = [int(p.get_data()[1][0]) for p in pieces]
@@ -516,6 +541,7 @@ def impl_run(case):
     prev_test = [list(out['init']['test'][0]), list(out['init']['test'][1])]
     objs = {}
     held = {}            # op index -> (X array, y array, pristine samples, pristine labels)
+    state_of = {}        # op index of a DataSet object -> scaling state the user gave it
     origin = {}          # op index of a DataSet object -> ORIGINAL coordinates of the rows it holds now (None: unknown)
     clf2 = [None]
     for jop, op in enumerate(case['ops']):
@@ -686,7 +712,7 @@ def impl_run(case):
             held[jop] = (Xa, ya, [[float(v) for v in r_] for r_ in Xa.copy()], [int(v) for v in ya.copy()])
             d = DataSet(Xa) if ent['array'] == 'nolabels' else DataSet((Xa, ya))
             try:
-                if flavour in ('prescaled', 'prescaled-corners'):
+                if flavour in ('prescaled', 'prescaled-corners', 'prescaled-translated'):
                     d.scale_range((LO, HI))
                 elif flavour == 'prescaled-other':
                     d.scale_range([(0.0, 1.0), (-1.0, 1.0), (0.25, 0.75)][jop % 3])
@@ -715,7 +741,19 @@ def impl_run(case):
         ent['raw'] = raw
         P, L = raw[0], raw[1]
         scaled_in = bool(raw[c18.SC])
-        ent['input_scaling'] = flavour if (flavour in PRESCALED or flavour == 'reuse') else 'unscaled'
+        if scaled_in:
+            # accumulated offsets of the learning data and of the input (floats of the implementation; compared bitwise, as np.array_equal does)
+            try:
+                o1, o2 = clf.get_learning_data().get_scaling_offset(), d.get_scaling_offset()
+                ent['offsets_equal'] = int(o1 is not None and o2 is not None and
+                                           bool(np.array_equal(np.broadcast_to(np.asarray(o1, dtype=np.float64), (dim,)), np.broadcast_to(np.asarray(o2, dtype=np.float64), (dim,)))))
+            except Exception:
+                ent['offsets_equal'] = 0
+        # a re-used data set that the user had pre-scaled keeps that tag (the same scaling state handed in again)
+        ent['input_scaling'] = flavour if flavour in PRESCALED else 'unscaled'
+        if flavour == 'reuse':
+            ent['input_scaling'] = state_of.get(op[1], 'unscaled') if state_of.get(op[1], 'unscaled') != 'unscaled' else 'reuse'
+        state_of[jop if flavour != 'reuse' else op[1]] = ent['input_scaling'] if ent['input_scaling'] != 'reuse' else 'unscaled'
         # ORIGINAL (unscaled) coordinates of the rows the data set holds right now; None = not known to the harness
         if internal:
             orig = None
@@ -763,7 +801,8 @@ def impl_run(case):
             prev_calc = ent['calc']
             prev_test = [tsn[0], tsn[1]]
             continue
-        prescaled_mismatch = scaled_in and not internal
+        prescaled_mismatch = scaled_in      # an already scaled input may always be refused (also the classifier's own data: after a first test_data on an
+        #                                     empty testing set the stored testing data carry the scaling attributes of the user's set)
         origin[jop if flavour != 'reuse' else op[1]] = None
         if flavour == 'reuse':
             origin[jop] = None
@@ -862,16 +901,28 @@ def probe_variant(_case):
         n0 = clf.get_testing_data().get_length()
         clf.test_data(_mk([[0.25, 0.25], [2.0, 1.75]], [1, 3]), print_output=False, print_removed=False)
         store = int(clf.get_testing_data().get_length() == n0 + 2)
-        return [store, labelmap]
     except Exception:
-        return [0, 0]
+        return [0, 0, 0]
+    # third repair (phase 3): does _internal_scaling compare the accumulated OFFSET of an already scaled input?  A translated copy of the
+    # learning cloud (same extent), min-max scaled to the internal range, has the learning factor but another offset.
+    offcmp = 0
+    try:
+        t = _mk([[x + 2.0, y + 2.0] for x, y in c['X']], c['y'])
+        t.scale_range((LO, HI))
+        try:
+            clf(t, print_removed=False)
+        except ValueError:
+            offcmp = 1
+    except Exception:
+        pass
+    return [store, labelmap, offcmp]
 
 
 def get_cvariant(chk=None):
     st, v = run_impl(probe_variant, [None])[0]
-    v = v if st == 'ok' else [0, 0]
+    v = v if st == 'ok' else [0, 0, 0]
     if chk is not None:
-        chk.extra['classification_model_variant'] = dict(test_data_stores_results=v[0], classificate_returns_labels=v[1],
+        chk.extra['classification_model_variant'] = dict(test_data_stores_results=v[0], classificate_returns_labels=v[1], internal_scaling_compares_offset=v[2],
                                                          note='selected by probing the implementation; [0,0] = code as found')
     return v
 
@@ -888,12 +939,13 @@ def model_case(case, r, variant):
         elif op[0] == 'continue':
             ops.append([4, ent.get('dens') or []] if ent.get('exc') is None else [3])
         else:
-            ops.append([1 if op[0] == 'call' else 2, ent['raw'], ent.get('dens') or []])
+            rj = int(bool(len(variant) > 4 and variant[4] and ent['raw'][c18.SC] and not ent.get('offsets_equal', 1)))
+            ops.append([1 if op[0] == 'call' else 2, ent['raw'], ent.get('dens') or [], rj])
     init_ok = r['init']['exc'] is None
     sp = r.get('split_in') or dict(perm=None, idx=[], lo_split=[])
     p = case['cfg']['split_percentage']
     split = [int(isinstance(p, float)), float(p), int(bool(case['cfg']['split_evenly'])), [] if sp['perm'] is None else [sp['perm']], sp['idx'], sp['lo_split']]
-    return [variant, [case['X'], case['y']], [[float(v) for v in rg[0]], [float(v) for v in rg[1]]] if rg else [], split,
+    return [variant[:4], [case['X'], case['y']], [[float(v) for v in rg[0]], [float(v) for v in rg[1]]] if rg else [], split,
             r.get('lo_learn') or [], r.get('dens_test') or [], ops if (init_ok and not r.get('learn_exc') and not r.get('degenerate')) else []]
 
 
@@ -1027,12 +1079,19 @@ TAMPER_CASE = dict(seed=7, kind='corpus', name='getter-copy-aliases-testing-data
                    cfg=dict(_CFG, split_percentage=0.6), ops=[['evaluate'], ['tamper'], ['evaluate']])
 
 
+# exemplar of the finding about the accumulated offset that _internal_scaling does not compare (runs only once the finding is registered)
+TRANSLATED_CASE = dict(seed=11, kind='corpus', name='prescaled-translated-accepted', labels=[0, 1], X=_X10, y=_two(0, 1), data_range=None,
+                       cfg=dict(_CFG, split_percentage=1.0),
+                       ops=[['call', [[2.0, 2.0], [4.5, 4.5], [2.25, 2.25], [4.0, 4.0]], [1, 1, 1, 1], 'prescaled-translated']])
+
+
 def run(chk):
     chk.coq_obligations()
     n = chk.n(200, 3000)
     nbig = chk.n(6, 40)
     chk.count('getter-tamper-histories=' + ('on' if tamper_enabled() else 'off (finding %s not registered)' % TAMPER_FINDING))
-    cases = [dict(c) for c in CORPUS] + ([dict(TAMPER_CASE)] if tamper_enabled() else []) + \
+    chk.count('translated-prescaled-histories=' + ('on' if translated_enabled() else 'off (finding %s not registered)' % OFFSET_FINDING))
+    cases = [dict(c) for c in CORPUS] + ([dict(TAMPER_CASE)] if tamper_enabled() else []) + ([dict(TRANSLATED_CASE)] if translated_enabled() else []) + \
             [gen_case(chk.rng, chk.tier, i, big=True) for i in range(nbig)] + [gen_case(chk.rng, chk.tier, i) for i in range(n)]
     impl = run_impl(impl_run, cases, limit=600)
     impl, leaks = confirm_in_fresh_processes(chk, cases, impl)
@@ -1052,6 +1111,29 @@ def judge(chk, cases, impl, variant):
             batch.append((2, model_case(c, r, variant)))
             where.append(i)
     mres = dict(zip(where, run_model(19, batch)))
+    # one_vs_others: the signed training labels of every classificator (model: split_one_vs_others, entry sub 3) against DensityEstimation.classes
+    ovo_idx = [i for i, (c, (st, r)) in enumerate(zip(cases, impl)) if st == 'ok' and c['cfg'].get('one_vs_others') and r['init']['exc'] is None and r.get('lo_learn')]
+    ovo_res = dict(zip(ovo_idx, run_model(19, [(3, [impl[i][1]['lo_learn'], impl[i][1]['init']['learn'][1]]) for i in ovo_idx]))) if ovo_idx else {}
+    for i in ovo_idx:
+        c, r, mo = cases[i], impl[i][1], ovo_res.get(i)
+        base = {k: c[k] for k in ('seed', 'kind', 'X', 'y', 'labels', 'cfg', 'data_range')}
+        if mo is None or sx.is_err(mo) or isinstance(mo, tuple):
+            chk.violation('corr:C19/one_vs_others', 'model-differs', {'observable': 'one_vs_others'}, dict(base, ops=[]), dict(model=str(mo)[:300]), failing_input=False)
+            continue
+        raises_m = mo == [1]
+        raises_i = bool(r.get('learn_exc'))
+        chk.count('one_vs_others:' + ('raises' if raises_i else 'trained'))
+        if raises_m != raises_i and not (raises_i and r['learn_exc'][0] not in ('IndexError', 'ZeroDivisionError')):
+            chk.violation('corr:C19/one_vs_others', 'model-differs', {'observable': 'one_vs_others/raises'}, dict(base, ops=[]),
+                          dict(impl='raises %r' % (r.get('learn_exc'),) if raises_i else 'trains', model='raises' if raises_m else 'trains',
+                               lo=r['lo_learn'], labels=r['init']['learn'][1][:40]), failing_input=False)
+            continue
+        if not raises_i and not raises_m and r.get('ovo_classes') is not None:
+            mc = mo[1]
+            ic = r['ovo_classes']
+            if len(mc) != len(ic) or any(len(a) != len(b) or any(not close_q(sx.rat(u), sx.q(w)) for u, w in zip(a, b)) for a, b in zip(ic, mc)):
+                chk.violation('corr:C19/one_vs_others', 'model-differs', {'observable': 'one_vs_others/signed-labels'}, dict(base, ops=[]),
+                              dict(impl=str(ic)[:400], model=str([[str(sx.q(w)) for w in b] for b in mc])[:400], lo=r['lo_learn']), failing_input=False)
     keys, samples = [], []
     for i, (c, (st, r)) in enumerate(zip(cases, impl)):
         chk.count('kind=' + c.get('kind', 'random'))
